@@ -13,7 +13,7 @@ pub static DEF: PropDef = PropDef {
     rule: "G-hidden tapes: (a) uniformly random (attribute type, value octets, secret, random vector) with value lengths 0..1040 including non-multiples of 16; (b) crafted plaintexts with a chosen \
 original-length field (0, 5, 6, exact, |v|+4, |v|+5, 1023, 1024, random) and optionally a valid payload of the kind, encrypted with the reference key schedule so that the crate decrypts exactly that \
 plaintext. Each case runs in a child process in both build profiles. Oracle: no panic or abort; the result is Ok(avp) whose attribute type is the announced one, or Err; an empty value, a value whose \
-length is not a multiple of 16, and a declared original length whose payload does not fit in the decrypted value each give Err. Non-trivial = value length a positive multiple of 16; distinct by hash of the inputs.",
+length is not a multiple of 16, and a declared original length whose payload does not fit in the decrypted value each give Err. One random case in 64 is revealed again from a destructor while the thread unwinds and from thread-local destructors at thread exit: no panic there either, same result. Non-trivial = value length a positive multiple of 16; distinct by hash of the inputs.",
     assumptions: &["the reference decryption (harness MD5) is used only to build crafted inputs and to know the declared original length of a case"],
     parts,
     run_tape,
@@ -101,7 +101,37 @@ fn run_tape(part: &str, tape: &[u8], cx: &mut Cx) -> Res {
         }
         return Ok(());
     }
-    check(&gen_hidden(&mut t), cx)
+    let ctx = t.below(64) == 0;
+    let h = gen_hidden(&mut t);
+    check(&h, cx)?;
+    if ctx {
+        // the same reveal called from a destructor while the thread unwinds and from thread-local destructors at thread exit
+        let (attr, value, secret, rv) = (h.attr, h.value.clone(), h.secret.clone(), h.rv);
+        let f: std::sync::Arc<dyn Fn() -> String + Send + Sync> = std::sync::Arc::new(move || {
+            let a = AVP::Hidden(rl2tp::avp::types::Hidden { attribute_type: attr, value: value.clone() });
+            match guard(|| a.reveal(&secret, &rv.into()).map(|x| from_crate(&x))) {
+                Caught::Ok(r) => format!("{:?}", r),
+                Caught::Panic(p) => format!("panic: {}", p.short()),
+                Caught::Monitor(_) => "panic".to_string(),
+            }
+        });
+        cx.eval();
+        cx.stage(STAGE_ARMED);
+        let want = f();
+        let r = crate::props::history::same_in_contexts(&want, f);
+        cx.stage(STAGE_SETUP);
+        match r {
+            Ok(true) => cx.class("also revealed while unwinding and from thread-local destructors at thread exit"),
+            Ok(false) => {}
+            Err((how, got)) => {
+                return fail(
+                    format!("reveal() {} when called {}", if got.starts_with("panic") { "panicked" } else { "returned a different result" }, how),
+                    json!({"attribute_type": h.attr, "hidden_value": hex(&h.value), "secret": hex(&h.secret), "random_vector": hex(&h.rv), "there": got.chars().take(300).collect::<String>(), "normally": want.chars().take(300).collect::<String>()}),
+                )
+            }
+        }
+    }
+    Ok(())
 }
 
 fn run_concrete(case: &Value, cx: &mut Cx) -> Res {
